@@ -98,3 +98,14 @@ Theorem C13_metadata_meets_monitor :
                  md_authn_signed := sp_authn_requests_signed m; md_first_is_sp_cert := true |} = true.
 Proof. exact metadata_meets_spec. Qed.
 Print Assumptions C13_metadata_meets_monitor.
+
+(* through the entry point that actually emits the request (samlsp.Middleware.
+   HandleStartAuthFlow): for every m.Binding and IdP endpoint set, with a method
+   configured the AuthnRequest sent is signed (detached on the redirect, enveloped
+   on the POST page) or the flow is refused *)
+Theorem C13_middleware_signed :
+  forall mbinding hr m kt o,
+  nonempty m = true -> mw_start mbinding hr m kt = Ok o ->
+  (o = MwRedirect true \/ o = MwPost true) /\ exists h, signing_context m kt = Ok h.
+Proof. exact mw_start_signed. Qed.
+Print Assumptions C13_middleware_signed.
